@@ -331,7 +331,8 @@ ASSUMPTIONS['C15'] = ['TypeId and downcast_ref are modelled by the type componen
 # ----------------------------------------------------------------------------- file checkers (C13)
 
 FS_SIZES = [0, 1, 5, 8191, 8192, 8193, 9000, 20000]
-FS_DIRS = [[], ['a'], ['b'], ['a', 'b'], ['ab'], ['ba', 'a'], ['b', 'aa'], ['x', 'y', 'z'], ['xy', 'z'], ['x', 'yz'], ['abc', 'd'], ['ab', 'cd']]
+FS_DIRS = [[], ['a'], ['b'], ['a', 'b'], ['ab'], ['ba', 'a'], ['b', 'aa'], ['x', 'y', 'z'], ['xy', 'z'], ['x', 'yz'], ['abc', 'd'], ['ab', 'cd'],
+           ['r%E9'], ['r%E8'], ['a', 'r%E9'], ['a', 'r%E8'], ['r%C3%A9']]      # %XX = raw byte: names that are not valid UTF-8 (and one that is)
 
 def fs_state(rng):
     r = rng.random()
@@ -345,6 +346,8 @@ def gen_fs_cases(rng, tier):
     cases = [
         "D 7 2 ba a | D 7 2 b aa".split(),                  # O10 witness: different name sets, same concatenation
         "D 7 2 xy z | D 7 2 x yz".split(),
+        "D 7 1 r%E9 | D 7 1 r%E8".split(),                  # names differing only in bytes that are not valid UTF-8
+        "D 7 2 a r%E9 | D 7 2 a r%E8".split(),
         "F 9000 0 100 | F 9000 3 100".split(),              # same size and mtime, content differs beyond the 8 KiB buffer
         "F 8193 0 100 | F 8193 1 100".split(),
         "F 10 0 100 | F 10 0 200".split(),
